@@ -653,7 +653,7 @@ class C02(Config):
             "operation: uninterrupted runs (rollback-journal and WAL), a fault at sampled SQLite VM steps up to the commit "
             "point in three pager configurations, a vetoed commit, live dumps through a second connection, a two-statement "
             "read on a second connection inside/outside a read transaction; plus the real snapshot reads (get_wallet_summary, "
-            "pool-migration mined_height) on a reader connection with a complete writer call (truncate, scan, update_chain_tip) "
+            "pool-migration oracles mined_height and check_step_satisfiability) on a reader connection with a complete writer call (truncate, scan, update_chain_tip) "
             "fired on another connection before the read and at every statement boundary of it; every line is one executed API call with its hook "
             "event trace and canonical dumps; distinct = distinct lines")
     trusted_base = [
@@ -678,7 +678,6 @@ class C02(Config):
         "atomic commit, isolation and crash recovery are properties of SQLite and the OS: trusted, exercised by file-copy crash images (at fault time and inside the commit hook, incl. cache-spill configurations with a hot journal), not proved",
         "fault positions, crash points and reader schedules are sampled (quick: ~14 positions per operation and state; thorough: ~120), not exhaustive",
         "store_proved_transaction / take_transaction_for_broadcast are driven with ONE really proved preparation transaction of one planned migration (single-note wallet); transfers (Ironwood crossings) are not proved",
-        "check_step_satisfiability (the second migration oracle) is covered by the snapshot-shape table only, not driven as a reader",
         "the list of discarded database results (C02_no_discarded_db_result) is a syntactic scan: a Result discarded through a helper, a closure or a differently spelled pattern is not seen",
         "the bracket discipline of the method bodies *below* the trait methods (helpers called inside the closure) is checked dynamically (traces), not statically",
     ]
